@@ -180,6 +180,89 @@ pub static FROZEN_AT: [AtomicU32; MAX_THREADS] = [Z32; MAX_THREADS];
 /// thread that cannot publish its own state - e.g. blocked inside a direct recv() - is moving)
 pub static T_SITES: [AtomicU64; MAX_THREADS] = [Z64; MAX_THREADS];
 pub static T_LAST: [AtomicU32; MAX_THREADS] = [Z32; MAX_THREADS];
+/// kernel thread id of every registered harness thread (0 = not registered / finished)
+pub static T_KTID: [AtomicU64; MAX_THREADS] = [Z64; MAX_THREADS];
+
+fn proc_stat(ktid: u64) -> Option<(char, u64)> {
+    let s = std::fs::read_to_string(format!("/proc/self/task/{}/stat", ktid)).ok()?;
+    let close = s.rfind(')')?;
+    let mut it = s[close + 1..].split_whitespace();
+    let st = it.next()?.chars().next()?;
+    // fields after the state: ppid pgrp session tty tpgid flags minflt cminflt majflt cmajflt utime stime
+    let v: Vec<&str> = it.collect();
+    let ut: u64 = v.get(10)?.parse().ok()?;
+    let stt: u64 = v.get(11)?.parse().ok()?;
+    Some((st, ut + stt))
+}
+
+/// Sound "nothing will ever move again" test for a scenario whose supervisor only waits (call it only
+/// after every time-based exit of the harness loops has long expired): in each of `samples` looks
+/// 50 ms apart no registered thread passed a hook site (so no queue operation - in particular no
+/// notify - made progress), and at least one thread was asleep in the kernel the whole time, gained
+/// no CPU time and last passed the site right before `Condvar::wait` of the blocking strategy.
+/// Threads that spin in a harness loop waiting for the sleeper do not change the verdict: they do
+/// not touch the queue. Returns what the threads were doing.
+pub fn asleep_and_nobody_moves(skip: u32, samples: u32) -> Option<String> {
+    if cfg!(miri) {
+        return None;
+    }
+    let debug = std::env::var("MQV_DEBUG").is_ok();
+    let threads: Vec<(usize, u64)> = (0..MAX_THREADS)
+        .filter(|t| *t as u32 != skip)
+        .map(|t| (t, T_KTID[t].load(SeqCst)))
+        .filter(|x| x.1 != 0)
+        .collect();
+    if threads.is_empty() {
+        return None;
+    }
+    let first: Vec<Option<(char, u64)>> = threads.iter().map(|t| proc_stat(t.1)).collect();
+    let sites0: Vec<u64> = threads.iter().map(|t| T_SITES[t.0].load(Relaxed)).collect();
+    let mut sleeper: Vec<bool> = threads
+        .iter()
+        .enumerate()
+        .map(|(i, t)| T_LAST[t.0].load(Relaxed) == site::BW_CHECKED_FALSE && matches!(first[i], Some(('S', _))))
+        .collect();
+    for _ in 0..samples {
+        std::thread::sleep(Duration::from_millis(50));
+        for (i, t) in threads.iter().enumerate() {
+            if T_KTID[t.0].load(SeqCst) != t.1 || T_SITES[t.0].load(Relaxed) != sites0[i] {
+                if debug {
+                    eprintln!("asleep_and_nobody_moves: T{} moved", t.0);
+                }
+                return None;
+            }
+            if sleeper[i] {
+                match (proc_stat(t.1), first[i]) {
+                    (Some((st, cpu)), Some((_, cpu0))) if st == 'S' && cpu == cpu0 => {}
+                    _ => sleeper[i] = false,
+                }
+            }
+        }
+    }
+    if !sleeper.iter().any(|x| *x) {
+        if debug {
+            for t in &threads {
+                eprintln!("asleep_and_nobody_moves: T{} last {}", t.0, site_name(T_LAST[t.0].load(Relaxed)));
+            }
+        }
+        return None;
+    }
+    Some(
+        threads
+            .iter()
+            .enumerate()
+            .map(|(i, t)| {
+                format!(
+                    "T{} {} after site {}",
+                    t.0,
+                    if sleeper[i] { "asleep in Condvar::wait" } else { "not in the queue's wait (no site passed)" },
+                    site_name(T_LAST[t.0].load(Relaxed))
+                )
+            })
+            .collect::<Vec<_>>()
+            .join(", "),
+    )
+}
 
 pub fn install() {
     vh::set_callback(Some(callback));
@@ -219,6 +302,10 @@ pub fn thread_begin(tid: u32, role: u32, seed: u64, policy: Policy, plan: &[Stal
     if plan.iter().any(|s| s.until.is_some()) {
         WATCH_ON.store(true, Relaxed);
     }
+    #[cfg(not(miri))]
+    if (tid as usize) < MAX_THREADS {
+        T_KTID[tid as usize].store(unsafe { libc::syscall(libc::SYS_gettid) } as u64, SeqCst);
+    }
     ACTIVE.fetch_add(1, SeqCst);
 }
 
@@ -230,6 +317,9 @@ pub fn thread_end() {
     ACTIVE.fetch_sub(1, SeqCst);
     CTX.with(|c| {
         if let Some(ctx) = c.borrow_mut().take() {
+            if (ctx.tid as usize) < MAX_THREADS {
+                T_KTID[ctx.tid as usize].store(0, SeqCst);
+            }
             for (i, h) in ctx.local_hits.iter().enumerate() {
                 if *h != 0 {
                     SITE_HITS[i].fetch_add(*h as u64, Relaxed);
